@@ -10,8 +10,11 @@ package main
 
 import (
 	"context"
+	"crypto/elliptic"
+	"encoding/asn1"
 	"flag"
 	"fmt"
+	"math/big"
 	"math/rand"
 	"time"
 
@@ -148,6 +151,18 @@ func (b *builder) extend(ps *seg.PathSegment, tags []tag, n int, exps []int, ctx
 		}
 	}
 	return ps, tags
+}
+
+// malleate returns the other valid ECDSA signature (r, n-s) for the same message and key: an
+// alteration of the signature bytes that needs no key and keeps the signature itself valid.
+func malleate(der []byte) ([]byte, bool) {
+	var sig struct{ R, S *big.Int }
+	if rest, err := asn1.Unmarshal(der, &sig); err != nil || len(rest) != 0 {
+		return nil, false
+	}
+	sig.S = new(big.Int).Sub(elliptic.P256().Params().N, sig.S)
+	out, err := asn1.Marshal(sig)
+	return out, err == nil
 }
 
 func flipBit(b []byte, pos int) {
@@ -336,7 +351,15 @@ func main() {
 						x = rng.Intn(keep)
 					}
 				}
-				switch rng.Intn(3) {
+				switch rng.Intn(4) {
+				case 3: // a signature replaced by ANOTHER VALID signature over the same input (a new signing act)
+					m, ok := malleate(e[x].pb.Signed.Signature)
+					if !ok {
+						continue
+					}
+					e[x].pb.Signed.Signature = m
+					e[x].id += 1000
+					verify(fmt.Sprintf("other-valid-signature(last=%v)", x == keep-1), t0, b.tsRe, inf, 0, e[:keep])
 				case 0:
 					flipBit(inf, rng.Intn(len(inf)*8))
 					verify("flip-info", t0, b.tsRe, inf, 1, e[:keep])
